@@ -83,7 +83,7 @@ MTx ==
            hn == [mh EXCEPT
                     !.cf = IF Ev.o # "U" /\ r.new THEN Freeze(@, Ev.f) ELSE @,
                     !.echo = @ \/ (startup /\ P!IsEchoReply(Ev.rep)),
-                    !.link = IF startup THEN @ ELSE Append(@, IF acked THEN "A" ELSE "L"),
+                    !.link = IF startup THEN @ ELSE P!LinkAppend(@, IF acked THEN "A" ELSE "L"),
                     !.slUsed = @ \/ (~startup /\ P!Bit3(Ev.f[1]) + P!Bit2(Ev.f[1]) # 2),
                     !.nrFalse = @ \/ (~startup /\ Ev.st[5] = 0)]
        IN /\ mh' = hn
@@ -128,7 +128,7 @@ MCfq == /\ Ev.e = "cfq"
         /\ Conform(D!CfQueue(Ev.p))
 
 MErr == /\ Ev.e = "err"
-        /\ LET hn == [mh EXCEPT !.link = Append(@, "E"), !.failed = TRUE] IN mh' = hn /\ Judge(hn)
+        /\ LET hn == [mh EXCEPT !.link = P!LinkAppend(@, "E"), !.failed = TRUE] IN mh' = hn /\ Judge(hn)
         /\ UNCHANGED <<mpeer, dataPhase, tail, nIn, nRcv, mach>>
         /\ errOwed' = FALSE
         /\ Conform(errOwed /\ UNCHANGED specvars)
